@@ -165,6 +165,15 @@ def state_swap_rule(chk, src):
     chk.ob("state-swap", "fermionic sign: amplitude with both sites occupied changes sign, only under the Jordan-Wigner flag", oks and guard == "self.compress_config.ofs_swap_jw", fi.where,
            {"statement": [unparse(x)[:70] for x in sign], "guard": guard}, "if self.compress_config.ofs_swap_jw: c2[:, 1, 1, :] = -c2[:, 1, 1, :]", line=fi.node.lineno,
            detail="exchanging two occupied fermionic sites gives -1; any other block, or the sign without the flag, corrupts the state")
+    # the sign belongs to the tensor that is decomposed: it must be applied before the decomposition of the swapped tensor
+    from .. import qn as Q
+    order = Q.stmts_in_order(fi.node)
+    svd2 = [pos for pos, st in enumerate(order) if isinstance(st, ast.Assign) and isinstance(st.value, ast.Call) and unparse(st.value.func).endswith("svd_qn") and st.value.args
+            and sign and unparse(st.value.args[0]) == unparse(sign[0].targets[0].value)]
+    spos = [pos for pos, st in enumerate(order) if sign and st is sign[0]]
+    chk.ob("state-swap", "fermionic sign applied before the swapped tensor is decomposed", bool(svd2) and bool(spos) and spos[0] < svd2[0], fi.where,
+           {"sign at statement": spos, "decomposition at statement": svd2}, "sign first", line=sign[0].lineno if sign else fi.node.lineno,
+           detail="the factors stored in the state come from the decomposition: a sign applied to the two-site tensor afterwards never reaches the state (and the swap criterion is evaluated on the unsigned tensor)")
     qn2 = [unparse(c).replace(" ", "") for c in ast.walk(fi.node) if isinstance(c, ast.Call) and unparse(c.func) == "self._get_big_qn" and any(k.arg == "swap" for k in c.keywords)]
     chk.ob("state-swap", "symmetry labels of the swapped tensor are computed for the swapped order", qn2 == ["self._get_big_qn(cidx,swap=True)"], fi.where, qn2, "self._get_big_qn(cidx, swap=True)", line=fi.node.lineno)
     # the `swap accepted` branch replaces all nine quantities and the model together
@@ -221,7 +230,7 @@ def run(chk):
     jw_sign_rule(chk, src)
     chk.rule("jw-simplify", "Jordan-Wigner strings and their single-site normal ordering, exhaustively over short words", 3)
     jw_simplify_rule(chk, src)
-    chk.rule("state-swap", "state side of an on-the-fly swap: transposition, fermionic sign, labels, decomposition results and model change together", 5)
+    chk.rule("state-swap", "state side of an on-the-fly swap: transposition, fermionic sign, labels, decomposition results and model change together", 6)
     state_swap_rule(chk, src)
     chk.table("update_mps_callers", {f"{k[0]}::{k[1]}": v for k, v in UPDATE_CALLERS.items()})
     # ---- ofs-pair
